@@ -313,7 +313,9 @@ func (x *c15AttrRun) pair(pi int, p c15Pair, thorough bool, mini bool) {
 	bt := c15Build(p)
 	var orders [][]byte
 	c15Interleavings(bt.a, bt.b, func(o []byte) { orders = append(orders, append([]byte(nil), o...)) })
-	x.r.Count("interleavings", int64(len(orders)))
+	if x.r.Shard == 0 { // every shard enumerates all of them; count once
+		x.r.Count("interleavings", int64(len(orders)))
+	}
 	if len(orders) == 0 {
 		return
 	}
@@ -411,7 +413,9 @@ func TestVerifC15Attr(t *testing.T) {
 			mini[a.String()+"|"+b.String()] = true
 		}
 	}
-	r.Count("shape-pairs", int64(len(pairs)))
+	if r.Shard == 0 {
+		r.Count("shape-pairs", int64(len(pairs)))
+	}
 	if os.Getenv("VERIF_C15_COUNT") != "" { // development aid: size of the enumeration, nothing is run
 		var total, units, maxN int64
 		for _, p := range pairs {
